@@ -6,7 +6,7 @@ from checks import gen_pipeline
 def run(tier):
     chk = vlib.Check("C07", tier)
     res = gen_pipeline.run(tier, chk.seed)
-    gen_pipeline.apply(chk, res, ["C07"])
+    gen_pipeline.apply(chk, res, ["C07", "C01"])   # C01 here = the native result against Generator.tla
     st = res["stats"]
     if st["both_ok"] < 100 or st["both_rejected"] < 100 or st.get("refsel_accepted_multi_ref", 0) < 20:
         raise ToolError("C07 vacuity guard: %r" % st)
